@@ -71,7 +71,7 @@ def digest8(obj) -> bytes:
 class Rec:
     """Per-case recorder handed to Part.run."""
 
-    __slots__ = ("fails", "classes", "nontrivial", "excluded", "active", "evals")
+    __slots__ = ("fails", "classes", "nontrivial", "excluded", "active", "evals", "stop_shard")
 
     def __init__(self, active: frozenset):
         self.fails: list[tuple[str, Any]] = []
@@ -80,6 +80,7 @@ class Rec:
         self.excluded: Counter = Counter()
         self.active = active
         self.evals = 0  # extra oracle evaluations inside one case (optional)
+        self.stop_shard = False  # set by a check after a catastrophic failure (deadlock ...): do not go on
 
     def fail(self, bucket: str, detail: Any = None) -> None:
         if len(self.fails) >= 50:
@@ -250,6 +251,8 @@ def run_one(part: Part, case, active: frozenset, agg: Optional[Agg], origin: dic
                 raise
     if agg is not None:
         agg.add_case(part, case, rec, origin)
+        if rec.stop_shard and rec.fails:
+            agg.fatal = True
     return rec
 
 
